@@ -25,34 +25,22 @@ theorem parseSample_plain (P : Params) (text : Str) : Post Plain (parseSample P 
       apply post_bind; intro y
       exact post_pure _ ⟨rfl, rfl⟩
 
-theorem hist_suffixes_present : ∃ suff, lookupTable tHistogram typeSuffixes = some suff ∧ suff.contains sBucket = true := by
+theorem hist_suffixes_present : ∃ suff, lookupTable tHistogram typeSuffixes = some suff := by
   have h1 : (lookupTable tHistogram typeSuffixes).isSome = true := by decide
-  obtain ⟨suff, hs⟩ := Option.isSome_iff_exists.mp h1
-  refine ⟨suff, hs, ?_⟩
-  have h2 : ((lookupTable tHistogram typeSuffixes).getD []).contains sBucket = true := by decide
-  rw [hs] at h2; exact h2
+  exact Option.isSome_iff_exists.mp h1
 
-/-- the native-histogram reading of a line: nothing but ValueError; a result has no value and a name that does not
-end in `_bucket` (one of the histogram suffixes the rule excludes) -/
+/-- the native-histogram reading of a line: nothing but ValueError; a result carries a native histogram -/
 theorem parseNhLine_spec (P : Params) (hd : DigitsNotSpace P) (line : Str) :
-    Safe (parseNhLine P line) ∧ ∀ s, parseNhLine P line = .ok (some s) → s.value = none ∧ endsWith sBucket s.name = false := by
-  obtain ⟨suff, hs, hb⟩ := hist_suffixes_present
+    Safe (parseNhLine P line) ∧ ∀ s, parseNhLine P line = .ok (some s) → s.nh.isSome = true := by
+  obtain ⟨suff, hs⟩ := hist_suffixes_present
   unfold parseNhLine
   rw [hs]
   dsimp only
   obtain ⟨h1, h2⟩ := parseNhSample_spec P hd line suff
-  refine ⟨h1, fun s h => ?_⟩
-  obtain ⟨hv, hn⟩ := h2 _ h s rfl
-  refine ⟨hv, ?_⟩
-  unfold endsWithAny at hn
-  rw [List.any_eq_false] at hn
-  have := hn sBucket (by simpa using hb)
-  simpa using this
+  exact ⟨h1, fun s h => (h2 _ h s rfl).1⟩
 
-/-- the tokenised form of a line -/
-theorem parseLine_ok (P : Params) (hd : DigitsNotSpace P) (line : Str)
-    (hnh : ∀ s, parseNhLine P line = .ok (some s) → endsWith sGsum s.name = false)
-    (hs : ∀ s, parseSample P line = .ok s → TsOK P s.ts) : LineOK P (parseLine P line) := by
+/-- the tokenised form of every line satisfies what the fold needs -/
+theorem parseLine_ok (P : Params) (hd : DigitsNotSpace P) (line : Str) : LineOK P (parseLine P line) := by
   unfold parseLine
   split
   · trivial
@@ -68,20 +56,15 @@ theorem parseLine_ok (P : Params) (hd : DigitsNotSpace P) (line : Str)
             · trivial
         · rfl
       · obtain ⟨h1, h2⟩ := parseNhLine_spec P hd line
-        exact ⟨h1, fun s h => ⟨(h2 s h).1, (h2 s h).2, hnh s h⟩, parseSample_safe P line,
-          fun s h => ⟨parseSample_plain P line s h, hs s h⟩⟩
+        exact ⟨h1, h2, parseSample_safe P line, fun s h => parseSample_plain P line s h⟩
 
-/-- **the OpenMetrics parser model is total** on every text: for all number parameters and regex classes with
-`float("NaN")` a NaN and no whitespace digit, provided no native-histogram sample's name ends in `_gsum` and every
-`Timestamp` of a sample converts to float -/
-theorem omParse_safe (P : Params) (hnan : NaNLiteral P) (hd : DigitsNotSpace P) (text : Str)
-    (hnh : ∀ line ∈ docLines text, ∀ s, parseNhLine P line = .ok (some s) → endsWith sGsum s.name = false)
-    (hs : ∀ line ∈ docLines text, ∀ s, parseSample P line = .ok s → TsOK P s.ts) :
-    Safe (omParse P text) := by
+/-- **the OpenMetrics parser model is total**: on every text, for all number parameters and regex classes with
+`float("NaN")` a NaN and no whitespace digit, it returns families or ValueError -/
+theorem omParse_safe (P : Params) (hnan : NaNLiteral P) (hd : DigitsNotSpace P) (text : Str) : Safe (omParse P text) := by
   unfold omParse
   apply assemble_safe P hnan
   intro l hl
-  obtain ⟨line, hline, rfl⟩ := List.mem_map.mp hl
-  exact parseLine_ok P hd line (hnh line hline) (hs line hline)
+  obtain ⟨line, _, rfl⟩ := List.mem_map.mp hl
+  exact parseLine_ok P hd line
 
 end PromVerif.Lemmas.OM
